@@ -78,6 +78,11 @@ impl<T: quote::ToTokens> MaybeToTokens for T {}
 pub trait RangeNumber: FromStr + PartialOrd + Copy + MaybeToTokens {
     const TYPE: RangeType;
 
+    /// `false` for `NaN` and the infinities, those can be parsed from a string ("NaN", "inf") but can't be used as a bound.
+    fn is_finite_number(self) -> bool {
+        true
+    }
+
     fn range_end_bound(self) -> Option<Bound<Self>>;
 
     fn from_u64(v: u64) -> Option<Self>;
@@ -171,10 +176,13 @@ impl<T: RangeNumber> Range<T> {
 
     pub fn new(s: &str) -> Result<Self> {
         let parse = |s: &str| {
-            s.parse::<T>().map_err(|_| Error::RangeParse {
-                range: s.to_string(),
-                range_type: T::TYPE,
-            })
+            s.parse::<T>()
+                .ok()
+                .filter(|v| v.is_finite_number())
+                .ok_or_else(|| Error::RangeParse {
+                    range: s.to_string(),
+                    range_type: T::TYPE,
+                })
         };
         let s = s.trim();
         if matches!(s, "_" | "..") {
@@ -1120,6 +1128,10 @@ mod range_number_impl {
                 impl RangeNumber for $num_type {
                     const TYPE: RangeType = RangeType::$range_type;
 
+                    fn is_finite_number(self) -> bool {
+                        self.is_finite()
+                    }
+
                     fn range_end_bound(self) -> Option<Bound<Self>> {
                         Some(Bound::Excluded(self))
                     }
@@ -1133,7 +1145,7 @@ mod range_number_impl {
                     }
 
                     fn from_f64(v: f64) -> Option<Self> {
-                        Some(v as $num_type)
+                        Some(v as $num_type).filter(|v| v.is_finite())
                     }
                 }
 
